@@ -218,6 +218,13 @@ impl<'ast, 's> Visit<'ast> for Finder<'s> {
                 self.push(range_of(m), out, "R4");
                 return;
             }
+            // ---- R10u: `unsafe { .. }` block -> `{ .. }` (the keyword has no run-time meaning)
+            syn::Expr::Unsafe(u) if self.on("R10u") => {
+                let r = u.unsafe_token.span.byte_range();
+                self.push(r, String::new(), "R10u");
+                // keep visiting the block on the next pass
+                return;
+            }
             // ---- R13: while let
             syn::Expr::While(w) if self.on("R13") => {
                 if let syn::Expr::Let(l) = &*w.cond {
